@@ -8,5 +8,5 @@ SOpW == <<"CreateBucket", "DeleteBucket", "PutVersioning", "PutVersioning", "Put
           "CreateUpload", "UploadPart", "UploadPart", "UploadPartCopy", "CompleteUpload", "CompleteUpload", "AbortUpload",
           "PutTagging", "PutTagging", "Transition">>
 SOpWSel == SelectSeq(SOpW, LAMBDA o : o \in Ops)
-SGenNext == Step(RandCall(RW(SOpWSel), S))
+SGenNext == GStep(RandCall(RW(SOpWSel), S))
 =============================================================================
